@@ -20,6 +20,7 @@ package nebula
 import (
 	"crypto/fips140"
 	"fmt"
+	"io"
 	"net/netip"
 	"os"
 	"runtime"
@@ -200,6 +201,7 @@ func TestVerifC13Unit(t *testing.T) {
 
 			g := []int{2, 4, 8, 32}[rng.IntN(4)]
 			per := sc.ops / g
+			var bailed atomic.Int64
 			r.Pre("unit cipher=%s start=%s goroutines=%d ops=%d", cipher, sc.name, g, sc.ops)
 			var wg sync.WaitGroup
 			for w := 0; w < g; w++ {
@@ -224,6 +226,12 @@ func TestVerifC13Unit(t *testing.T) {
 							f.send(header.Control, 0, ci, hi, payload[:16], nb, out[:0])
 						case k == 8:
 							f.SendVia(hi, relay, payload[:48], nb, out[:0], false, 0)
+						case k == 9 && i%3 == 0:
+							// relay send whose output buffer is too small: bails out after reserving a counter
+							small := make([]byte, 0, 40)
+							if _, err := f.prepareSendVia(hi, relay, payload[:48], nb, small, false); err == io.ErrShortBuffer {
+								bailed.Add(1)
+							}
 						default:
 							f.prepareSendVia(hi, relay, payload[:40], nb, out[:0], false)
 						}
@@ -251,7 +259,8 @@ func TestVerifC13Unit(t *testing.T) {
 			// conservation: below the ceiling every reserved counter is used exactly once, so the number of
 			// successful encryptions equals the counter advance.
 			if sc.start < RejectAfterMessages-3*G-100 {
-				if final-base != uint64(per*g) || int(okN) != per*g {
+				r.Count("relay_sends_bailed_out_short_buffer", int(bailed.Load()))
+				if final-base != uint64(per*g) || int(okN) != per*g-int(bailed.Load()) {
 					r.Violation("C13/counter-conservation", fmt.Sprintf("%s/%s: %d sends advanced the counter by %d with %d encryptions", cipher, sc.name, per*g, final-base, okN),
 						map[string]any{"cipher": cipher, "start": sc.name, "sends": per * g, "advance": final - base, "encryptions": okN})
 				}
